@@ -20,3 +20,4 @@ INVARIANT StrictImpliesMaybe
 INVARIANT OfferedCompatible
 INVARIANT ProvidersAgree
 INVARIANT CacheCoherent
+INVARIANT OfferedNowCompatible
